@@ -17,7 +17,7 @@ for pid in ids:
         'replay_cmd_template': 'tools/check.py %s --replay {path}' % pid,
         'engine': 'lean-model+rust-harness',
         'level_claimed': {'category': 'proof', 'text': LEVEL_TEXT[pid], 'design_ref': s.get('design_ref', '')},
-        'level_note': s.get('level_note', 'Trusted: Lean kernel; axioms propext/Classical.choice/Quot.sound only; the hand-written model is tied to /repo by differential correspondence suites (bounded by their generators); harness, codecs, check.py; FloatOps parameters. See DESIGN.md §9.'),
+        'level_note': s.get('level_note', 'Trusted: Lean kernel; axioms propext/Classical.choice/Quot.sound only; the hand-written model is tied to /repo by differential correspondence suites (bounded by their generators); harness, codecs, check.py; FloatOps parameters. See DESIGN.md §10.'),
         'technique': s.get('technique', 'Lean 4 theorems about a hand-written executable model + differential correspondence check against the implementation'),
     })
 na = [{'property_id': pid, 'reason': NOT_APPLICABLE.get(pid, 'not yet covered by a check in this revision; see DESIGN.md')} for pid in ids if pid not in PROPS]
